@@ -61,6 +61,8 @@
 
 // Modified to implement C code by Dave Benson.
 
+#include <cmath>
+
 #include <google/protobuf/descriptor.h>
 #include <google/protobuf/io/printer.h>
 
@@ -113,6 +115,27 @@ FileGenerator::FileGenerator(const google::protobuf::FileDescriptor* file,
 
 FileGenerator::~FileGenerator() {}
 
+// A float or double default that is not finite is written as INFINITY / NAN,
+// which come from <math.h>.
+static bool HasNonFiniteDefault(const google::protobuf::Descriptor* message) {
+  for (int i = 0; i < message->field_count(); i++) {
+    const google::protobuf::FieldDescriptor* field = message->field(i);
+    if (!field->has_default_value())
+      continue;
+    if (field->cpp_type() == google::protobuf::FieldDescriptor::CPPTYPE_FLOAT &&
+        !std::isfinite(field->default_value_float()))
+      return true;
+    if (field->cpp_type() == google::protobuf::FieldDescriptor::CPPTYPE_DOUBLE &&
+        !std::isfinite(field->default_value_double()))
+      return true;
+  }
+  for (int i = 0; i < message->nested_type_count(); i++) {
+    if (HasNonFiniteDefault(message->nested_type(i)))
+      return true;
+  }
+  return false;
+}
+
 void FileGenerator::GenerateHeader(google::protobuf::io::Printer* printer) {
   std::string filename_identifier = FilenameIdentifier(file_->name());
 
@@ -126,12 +149,21 @@ void FileGenerator::GenerateHeader(google::protobuf::io::Printer* printer) {
     "#ifndef PROTOBUF_C_$filename_identifier$__INCLUDED\n"
     "#define PROTOBUF_C_$filename_identifier$__INCLUDED\n"
     "\n"
-    "#include <protobuf-c/protobuf-c.h>\n"
-    "\n"
-    "PROTOBUF_C__BEGIN_DECLS\n"
-    "\n",
+    "#include <protobuf-c/protobuf-c.h>\n",
     "filename", file_->name(),
     "filename_identifier", filename_identifier);
+
+  for (int i = 0; i < file_->message_type_count(); i++) {
+    if (HasNonFiniteDefault(file_->message_type(i))) {
+      printer->Print("#include <math.h>\n");
+      break;
+    }
+  }
+
+  printer->Print(
+    "\n"
+    "PROTOBUF_C__BEGIN_DECLS\n"
+    "\n");
 
   // Verify the protobuf-c library header version is compatible with the
   // protoc-gen-c version before going any further.
